@@ -1196,6 +1196,28 @@ def _c04_docs_example():
         return "cache_hash class hashed its field %d times for two instances" % len(calls)
 
 
+def F25_C04_falsy_key():
+    """fix cb57cf9: a key callable that is falsy (callable empty dict subclass, __bool__ False, __len__ 0) is
+    advertised on the Attribute and applied by == AND by the generated hash - with eq generated or not."""
+    for kind, ctor in sorted(FALSY_KINDS.items()):
+        key = ctor(lambda s: s.lower())
+        if key or not callable(key):
+            return "reproducer broken: key of kind %s is not a falsy callable" % kind
+        for deco in (attr.s(unsafe_hash=True), attr.s(frozen=True, cache_hash=True), attr.s(eq=False, unsafe_hash=True),
+                     attrs.define(frozen=True), attrs.define(unsafe_hash=True, slots=False)):
+            ns = {"name": attr.ib(eq=key), "__annotations__": {"name": str}}
+            C = deco(type("C", (object,), ns))
+            if attr.fields(C).name.eq_key is not key:
+                return "%s key: dropped from the Attribute (eq_key=%r)" % (kind, attr.fields(C).name.eq_key)
+            x, y = C("Widget"), C("wIDGET")
+            if "__eq__" in C.__dict__ and not (x == y):
+                return "%s key: not applied by the generated __eq__" % kind
+            if hash(x) != hash(y):
+                return "%s key: C('Widget') and C('wIDGET') hash differently although their keyed values agree" % kind
+            if hash(x) == hash(C("other")) and hash(x) == hash(C("third")) and hash(x) == hash(C("4th")):
+                return "%s key: hash ignores the field" % kind
+
+
 def corpus():
     import importlib.util
     spec = importlib.util.spec_from_file_location("verif_defects", os.path.join(vlib.VERIF, "corpus", "defects.py"))
@@ -1210,7 +1232,8 @@ def corpus():
         return run
 
     return ([(k, safe(f)) for k, f in m.ALL.items() if "_C04_" in k]
-            + [("c04_bases_build", safe(_c04_bases_build)), ("c04_docs_example", safe(_c04_docs_example))])
+            + [("F25_C04_falsy_key", safe(F25_C04_falsy_key)),
+               ("c04_bases_build", safe(_c04_bases_build)), ("c04_docs_example", safe(_c04_docs_example))])
 
 
 def EXHAUSTIVE(tier):
